@@ -20,6 +20,10 @@ fn main() {
     }
     let rc = match args[1].as_str() {
         "c05_lost_wakeup" => c05_lost_wakeup(args.get(2).map(|s| s.as_str()).unwrap_or("")),
+        "c08_goaway" => c08_goaway(
+            args.get(2).and_then(|s| s.parse().ok()).unwrap_or(0),
+            args.get(3).and_then(|s| s.parse().ok()).unwrap_or(0),
+        ),
         other => {
             eprintln!("unknown scenario {}", other);
             2
@@ -97,4 +101,94 @@ fn c05_lost_wakeup_at(hook: &str, k: usize) -> (i32, bool) {
     } else {
         (0, fired)
     }
+}
+
+
+/// Decode varints of a byte string (no error handling needed: h3 wrote them).
+fn varint_at(b: &[u8], pos: usize) -> (u64, usize) {
+    let n = 1usize << (b[pos] >> 6);
+    let mut v = (b[pos] & 0x3f) as u64;
+    for i in 1..n {
+        v = (v << 8) | b[pos + i] as u64;
+    }
+    (v, n)
+}
+
+/// All GOAWAY ids written on the (server's) control stream, in order.
+fn goaway_ids(control: &[u8]) -> Vec<u64> {
+    let mut out = vec![];
+    let (_ty, mut pos) = varint_at(control, 0); // stream type
+    while pos < control.len() {
+        let (ft, a) = varint_at(control, pos);
+        let (len, b) = varint_at(control, pos + a);
+        let start = pos + a + b;
+        if ft == 0x7 {
+            out.push(varint_at(control, start).0);
+        }
+        pos = start + len as usize;
+    }
+    out
+}
+
+/// Server: accept `accepted` requests (stream ids 0, 4, ...), call shutdown(n), then let the request whose id EQUALS
+/// the announced GOAWAY id arrive. Reproduces (exit 1) if (a) the announced id is not greater than the id of a request
+/// already handed to the application, or (b) the arriving request with id == GOAWAY id is handed to the application.
+fn c08_goaway(accepted: u64, n: usize) -> i32 {
+    let mock = Mock::new(true);
+    let mut conn: h3::server::Connection<Mock, Bytes> =
+        drive(h3::server::builder().build(mock.clone()), 10).expect("build completes").expect("build ok");
+    let (_c, waker) = counting_waker();
+    let mut cx = Context::from_waker(&waker);
+    let mut last = None;
+    for k in 0..accepted {
+        mock.push_bidi(4 * k, vec![]);
+        match conn.poll_accept_request_stream(&mut cx) {
+            Poll::Ready(Ok(Some(s))) => {
+                last = Some(4 * k);
+                std::mem::forget(s);
+            }
+            _ => {
+                println!("request {} was not handed out before shutdown", 4 * k);
+                return 0;
+            }
+        }
+    }
+    let r = drive(conn.shutdown(n), 10);
+    if !matches!(r, Some(Ok(()))) {
+        println!("shutdown did not complete");
+        return 0;
+    }
+    let ctrl = mock.world.lock().unwrap().log.sent.get(&3).cloned().unwrap_or_default();
+    let ids = goaway_ids(&ctrl);
+    println!("accepted before shutdown: {:?}; shutdown({}) wrote GOAWAY ids {:?}", last, n, ids);
+    let Some(&announced) = ids.last() else {
+        println!("no GOAWAY written");
+        return 0;
+    };
+    let mut rc = 0;
+    if let Some(l) = last {
+        if announced <= l {
+            println!("REPRODUCED: GOAWAY id {} is not greater than request {} which the application is already serving", announced, l);
+            rc = 1;
+        }
+    }
+    mock.push_bidi(announced, vec![]);
+    match conn.poll_accept_request_stream(&mut cx) {
+        Poll::Ready(Ok(Some(s))) => {
+            println!("REPRODUCED: request with stream id {} == last GOAWAY id sent was handed to the application", announced);
+            std::mem::forget(s);
+            rc = 1;
+        }
+        other => {
+            let w = mock.world.lock().unwrap();
+            println!(
+                "request {} not handed out ({}); resets {:?}, stop_sendings {:?}",
+                announced,
+                match other { Poll::Pending => "Pending", Poll::Ready(Ok(None)) => "None", _ => "Err" },
+                w.log.resets, w.log.stop_sendings
+            );
+        }
+    }
+    std::mem::forget(conn);
+    rc
 }
